@@ -293,7 +293,7 @@ fn spec_exponent(a: OF, b: OF) -> OF {
         (Ok(Some(x)), Ok(Some(y))) => Ok(Some(Datum::new(tmax(x.time, y.time), powf_standin(x.value, y.value)))),
     }
 }
-//@ob fn="<ExponentStream<GB,GE,E> as Getter<f32,E>>::get" at=src/streams/math.rs:363 prop=C02,C03 clause="get()==spec for every assignment (all f32 bit patterns): base's error first, then exponent's, unchanged; base absent => absent; exponent absent => base passed through bit-unchanged; both present => value == powf(base, exponent) (powf stubbed by an uninterpreted stand-in, argument order fixed), timestamp = newer of the two (C03); second get() equal, inputs unchanged"
+//@ob fn="<ExponentStream<GB,GE,E> as Getter<f32,E>>::get" at=src/streams/math.rs:363 prop=C02,C03 also=libm_nocheck,micromath_nocheck clause="get()==spec for every assignment (all f32 bit patterns): base's error first, then exponent's, unchanged; base absent => absent; exponent absent => base passed through bit-unchanged; both present => value == powf(base, exponent) (powf stubbed by an uninterpreted stand-in, argument order fixed), timestamp = newer of the two (C03); second get() equal, inputs unchanged"
 #[kani::proof]
 #[kani::stub(crate::enhanced_float::powf, powf_standin)]
 fn c02_exponent_spec() {
